@@ -7,17 +7,24 @@ using namespace skv;
 
 struct C04 : Harness {
     Api api = static_api();
-    static Op gen_tweak(int kind, int bs) {
+    // values used earlier in the history are re-submitted now and then (also as prefixes): legal, and exactly
+    // what an "unchanged value" fast path or a cache would mishandle
+    static Bytes reuse_or(std::vector<Bytes> &pool, size_t n, int percent) {
+        if (!pool.empty() && *chance(percent)) { Bytes b = *rc::gen::elementOf(pool); b.resize(n, 0); return b; }
+        Bytes b = *gbytes(n); pool.push_back(b); return b;
+    }
+    static Op gen_tweak(int kind, int bs, std::vector<Bytes> &pool) {
         Op t = mkop(opn(kind, "set_tweak"));
         int tl = *rc::gen::weightedOneOf<int>({{3, rc::gen::just(bs)}, {3, irange(1, bs)}});
         t.set("s", 0);
-        if (*chance(20)) t.setnull("tweak"); else t.set("tweak", *gbytes(tl));
+        if (*chance(20)) t.setnull("tweak"); else t.set("tweak", reuse_or(pool, (size_t)tl, 30));
         t.set("len", tl).set("to", *goffset());
         return t;
     }
     rc::Gen<Program> gen() override {
         return rc::gen::exec([]() {
             Program p;
+            std::vector<Bytes> keys, tweaks;
             bool viactr = *chance(35);
             bool is128 = *chance(50);
             int bs = is128 ? 16 : 8;
@@ -30,9 +37,9 @@ struct C04 : Harness {
                     int w = keyed ? *irange(0, 9) : 0;
                     if (w == 0) {
                         int len = *gkeylen(bs, 2, 10);
-                        p.push_back(mkop(opn(kind, "set_tweaked_key")).set("s", 0).set("key", *gbytes(len)).set("len", len).set("ko", *goffset()));
+                        p.push_back(mkop(opn(kind, "set_tweaked_key")).set("s", 0).set("key", reuse_or(keys, (size_t)len, 35)).set("len", len).set("ko", *goffset()));
                         keyed = true;
-                    } else if (w <= 5) p.push_back(gen_tweak(kind, bs));
+                    } else if (w <= 5) p.push_back(gen_tweak(kind, bs, tweaks));
                     else {
                         Op e = mkop(opn(kind, w <= 7 ? "enc" : "dec"));
                         e.set("s", 0).set("in", *gbytes(bs)).set("io", *goffset()).set("oo", *goffset());
@@ -46,11 +53,13 @@ struct C04 : Harness {
                 p.push_back(mkop(std::string("new.") + kname(kind)));
                 p.push_back(mkop(opn(kind, "init")).set("s", 0).set("be", *rc::gen::elementOf(bes)));
                 int len = *gkeylen(bs, 2, 10);
-                p.push_back(mkop(opn(kind, "set_tweaked_key")).set("s", 0).set("key", *gbytes(len)).set("len", len));
+                p.push_back(mkop(opn(kind, "set_tweaked_key")).set("s", 0).set("key", reuse_or(keys, (size_t)len, 0)).set("len", len));
                 int rounds = *irange(1, 4);
                 for (int r = 0; r < rounds; ++r) {
+                    // a fresh key - or the very same key again - resets the tweak to zero
+                    if (r > 0 && *chance(35)) { int l2 = *chance(60) ? len : *gkeylen(bs, 2, 10); p.push_back(mkop(opn(kind, "set_tweaked_key")).set("s", 0).set("key", reuse_or(keys, (size_t)l2, 60)).set("len", l2)); }
                     int nt = *irange(0, 3);
-                    for (int i = 0; i < nt; ++i) p.push_back(gen_tweak(kind, bs));
+                    for (int i = 0; i < nt; ++i) p.push_back(gen_tweak(kind, bs, tweaks));
                     p.push_back(gen_set_counter(kind, 0));
                     int n = *rc::gen::element(bs, 3 * bs + 1, 4 * bs, 8 * bs + 3, 16 * bs);
                     p.push_back(mkop(opn(kind, "encrypt")).set("s", 0).set("in", *gdata(n)));
